@@ -111,6 +111,16 @@ func c14CondOnEventOnly(v ssa.Value, d int) bool {
 		if core.CalleeName(x) == "builtin:len" {
 			return c14CondOnEventOnly(x.Call.Args[0], d+1)
 		}
+		// a helper of the package applied to the event (asserting the type of its value, say): its
+		// result depends on the event alone when no argument is a map
+		if cal := x.Common().StaticCallee(); cal != nil && len(cal.Blocks) > 0 && x.Parent() != nil && cal.Pkg == x.Parent().Pkg && !x.Common().IsInvoke() {
+			for _, a := range x.Common().Args {
+				if _, isMap := a.Type().Underlying().(*types.Map); isMap || !c14CondOnEventOnly(a, d+1) {
+					return false
+				}
+			}
+			return true
+		}
 		return false
 	case *ssa.Lookup:
 		// indexing a string is fine; a map lookup is what the rule is about
